@@ -57,8 +57,11 @@ def run(P, item):
             xs = arg_tuple(ctx, f'f{i}', arity)
             for prev in fills: ctx.add(b_not(tuple_eq(xs, prev)))
             wrap.call_subject(I, ctx, subj, xs, 0); fills.append(xs)
-        x = arg_tuple(ctx, 'x', arity)
-        for prev in fills: ctx.add(b_not(tuple_eq(x, prev)))        # the suspended call is a miss (a hit never reaches the body)
+        target = item.get('target', 'new')
+        if target == 'fill' and fills: x = fills[0]          # a call for stored arguments: reaches the body only if invalidate_on says stale
+        else:
+            x = arg_tuple(ctx, 'x', arity)
+            for prev in fills: ctx.add(b_not(tuple_eq(x, prev)))        # the suspended call is a miss
         pend = {'gate': sid * 10 + susp_at, 'armed': True}
         def gate(c, gid):
             if pend['armed'] and (gid == pend['gate'] if is_conc(gid) else False):
@@ -69,7 +72,9 @@ def run(P, item):
         co = run_single(ctx, I.call_fn(ctx, subj.fn, list(x)))
         cell = Cell(co, 'fut'); pf = P.fns[co.fname]
         pr = run_single(ctx, I.call_fn(ctx, pf, [Agg('Pin', 0, [Ref(cell)]), Opaque('cx')]))
-        if pr.variant != 1: raise Unsupported('the call did not suspend at gate %d' % susp_at)
+        if pr.variant != 1:
+            if target == 'fill': return dict(not_suspended=True)
+            raise Unsupported('the call did not suspend at gate %d' % susp_at)
         g0 = [c for c in log if c['method'] == 'get']
         store, queue, cfg = cache_parts(P, g0[-1]['cache'], g0[-1]['ty'], 0)
         at_susp = dict(held=[l.name for l in all_locks(I) if l.state != 0], guards=len(guards_in(co)), keys=[k for k, v in store.items], queue=list(queue.items),
@@ -112,16 +117,18 @@ def run(P, item):
         if o.status in ('panic', 'deadlock'):
             res['classes'].add(o.status)
             res['failed'].append(dict(prop='C20', clause='other calls and invalidations complete while a call is suspended (no lock is held across the await)' if o.status == 'deadlock' else 'no panic', kind='susp', msg=str(o.res), cfg=f"SUSP/{name}", op=f"suspend@{susp_at}/{inter}/{end}",
-                                      witness=dict(subject=name, suspend_at=susp_at, inter=inter, end=end, nfill=nfill, blocked=True)))
+                                      witness=dict(subject=name, suspend_at=susp_at, inter=inter, end=end, nfill=nfill, blocked=True, target=item.get('target', 'new'))))
             continue
         d = o.res; claims = []
+        if d.get('not_suspended'):
+            res['classes'].add('served-without-suspension'); continue
         s_ = d['at_susp']; it = d['subj'].rec['intended']
         def add(clause, f): claims.append(('C20', clause, f))
         res['classes'].add(f"suspended/state{s_['state']}/{inter}/{end}")
         add('no cache lock is held while the call is suspended', len(s_['held']) == 0)
         add('the suspended coroutine keeps no guard alive across the await', s_['guards'] == 0)
         present = b_or(*[simp(str_eq(k, d['key'])) for k in s_['keys']]) if s_['keys'] else False
-        add('no entry exists for a result that has not been produced yet', b_not(present))
+        if item.get('target', 'new') != 'fill': add('no entry exists for a result that has not been produced yet', b_not(present))
         add('the body has not produced its result at the suspension point', s_['execs'] == 0)
         add('no lock is left held by the work done while the call was suspended', len(d['mid']['held']) == 0)
         if end == 'drop':
@@ -134,7 +141,7 @@ def run(P, item):
             add('a resumed call runs the body exactly once', len(ex) == 1)
             if ex:
                 add('a resumed call returns its own result', simp(term_eq(d['fin'], ex[0][4])))
-                if not it['result'] and not it['cache_if']:
+                if not it['result'] and not it['cache_if'] and item.get('target', 'new') != 'fill':
                     pres = [simp(str_eq(k, d['key'])) for k in d['after']['keys']]
                     add('a resumed call stores its result normally', b_or(*pres) if pres else False)
                     for k, v in zip(d['after']['keys'], d['after']['vals']):
@@ -152,11 +159,11 @@ def run(P, item):
                     v = model.eval(t, model_completion=True) if is_z3(t) else t
                     return v.as_long() if is_z3(v) and z3.is_int_value(v) else (v if is_conc(v) else str(v))
                 res['failed'].append(dict(prop=prop, clause=clause, kind='susp', cfg=f"SUSP/{name}", op=f"suspend@{susp_at}/{inter}/{end}",
-                                          witness=dict(subject=name, suspend_at=susp_at, inter=inter, end=end, nfill=nfill, fills=[[ev(x) for x in t] for t in d['fills']], x=[ev(x) for x in d['x']],
+                                          witness=dict(target=item.get('target', 'new'), subject=name, suspend_at=susp_at, inter=inter, end=end, nfill=nfill, fills=[[ev(x) for x in t] for t in d['fills']], x=[ev(x) for x in d['x']],
                                                        pred=[(cn, render_key(k, ev), ev(b)) for cn, k, b in d['pred'].memo],
                                                        predicted=dict(keys_mid=[render_key(k, ev) for k in d['mid']['keys']], keys_after=[render_key(k, ev) for k in d['after']['keys']], inter_execs=d['inter_execs'], end_execs=len(d['after']['execs'])))))
     return dict(paths=res['paths'], claims=res['claims'], failed=res['failed'], classes=sorted(res['classes']), funcs=sorted(res['funcs']), builtins=sorted(res['builtins']),
-                checks=st['checks'], solver_s=st['solver_s'], blocks=st['blocks'], infeasible=st['infeasible'], tag=f"SUSP {name} fill={nfill} suspend@gate{susp_at} {inter} then {end}")
+                checks=st['checks'], solver_s=st['solver_s'], blocks=st['blocks'], infeasible=st['infeasible'], tag=f"SUSP {name} fill={nfill} {item.get('target', 'new')} suspend@gate{susp_at} {inter} then {end}")
 
 
 def replay(f, w):
@@ -165,6 +172,9 @@ def replay(f, w):
     L = ['scenario subj']
     for t in w.get('fills', [[1]] * w.get('nfill', 1)): L.append(f"call 0 {name} 0 " + ' '.join(map(str, t)))
     x = w.get('x', [424242] * len(rec['args']))
+    if w.get('target') == 'fill':
+        x = w.get('fills', [[1]])[0]
+        L.append(f"script stales {sid} 1 1 1")
     L.append(f"script pendings {sid * 10 + w['suspend_at']} 1")
     L.append(f"spawn 1 {name} 0 " + ' '.join(map(str, x)))
     L.append('poll 1'); L.append('keys ' + cname)
